@@ -32,9 +32,12 @@ def run(tier, seed, replay=None):
             log("note: table difference (not a verdict): %s" % m)
         for m in res["mismatches"] or []:
             ex = m.get("extra") or {}
-            allpass = all(ex.get("pass", [False])[k - 1] for k in cases[m["case"]]["keys"]) if "pass" in ex else None
+            try:
+                allpass = all(ex.get("pass", [False])[k - 1] for k in cases[m["case"]]["keys"]) if "pass" in ex else None
+            except (IndexError, KeyError, TypeError):
+                allpass = None      # a mismatch of the concurrent phase carries another shape of details
             sig = {"kind": "rewrite", "cmd": ex.get("cmd"), "mode": ex.get("mode"), "n": ex.get("n"), "allpass": allpass}
-            verdict.violation(sig, m["detail"], {"family": "keyfilter", "case": cases[m["case"]] if "cls" in ex else None, "cmd": ex.get("cmd"), "mode": ex.get("mode")})
+            verdict.violation(sig, m["detail"], {"family": "keyfilter", "case": cases[m["case"]] if "cls" in ex and 0 <= m["case"] < len(cases) else None, "cmd": ex.get("cmd"), "mode": ex.get("mode")})
     rc = verdict.finish()
     multi = sum(1 for c in cases if len(c["keys"]) >= 2)
     cov = {"states": r.distinct, "transitions": r.generated, "traces_validated_against_impl": res["evaluations"],
